@@ -221,3 +221,7 @@ def rule_dispatch(col, configs):
 def run(col, configs, tier):
     guarded(col, rule_tables_agree, configs)
     guarded(col, rule_dispatch, configs)
+    from rules import extra as X
+    for n, facts in configs.items():
+        col.set_config(n)
+        guarded(col, X.rule_error_accounting, facts)
